@@ -5,3 +5,6 @@ import Stingray.Model.Clean
 import Stingray.Driver.C17
 import Stingray.Model.Convert
 import Stingray.Driver.C16
+import Stingray.Model.Picture
+import Stingray.Model.Decode
+import Stingray.Driver.Decode
